@@ -47,3 +47,84 @@ def ext_names():
 
 def complete_at_rename():
     return _state.get('size_at_rename') == _state.get('final_size')
+
+
+# ---------------------------------------------------------------------------------------
+# TemplateLoader.load (C16): the REAL method on a scratch directory tree; the observation
+# primitives of the contract (exists / join / isabs, the constructor call) are concrete
+# ---------------------------------------------------------------------------------------
+_load = {}
+
+
+def load_first(self, spec, cls, j0):
+    from chameleon.loader import TemplateLoader
+    made = []
+
+    def template_class(filename, **kw):
+        made.append(filename)
+        return ('template', filename)
+    tl = TemplateLoader(search_path=list(self.search_path), default_extension=self.default_extension)
+    _load.clear()
+    _load.update(made=made, search_path=list(self.search_path), ext=self.default_extension, spec=spec)
+    return tl.load(spec, template_class)
+
+
+def gen_load_cases():
+    import itertools
+    import types
+    base = tempfile.mkdtemp(prefix='pyvc-load-')
+    _load['_base'] = base
+    dirs = [os.path.join(base, 'd%d' % i) for i in range(3)]
+    for d in dirs:
+        os.makedirs(d)
+    # which directories contain which file
+    layout = {'a.pt': [0, 1, 2], 'b.pt': [1, 2], 'c.pt': [2], 'd': [0, 2], 'e.txt': [1]}
+    for name, where in layout.items():
+        for i in where:
+            open(os.path.join(dirs[i], name), 'w').close()
+    try:
+        for spec in ('a.pt', ' b.pt ', 'c.pt', 'a', 'b', 'd', 'e.txt', 'missing.pt', os.path.join(dirs[1], 'a.pt')):
+            for ext in (None, '.pt'):
+                for order in itertools.permutations(range(3)):
+                    for j0 in range(4):
+                        yield ({'self': types.SimpleNamespace(search_path=[dirs[i] for i in order],
+                                                              default_extension=ext),
+                                'spec': spec, 'cls': object, 'j0': j0}, {})
+    finally:
+        shutil.rmtree(base, ignore_errors=True)
+
+
+def _name():
+    s = _load['spec'].strip()
+    return s if (_load['ext'] is None or '.' in s) else s + _load['ext']
+
+
+def env(fn, ty, *args):
+    return {'isabs': os.path.isabs, 'exists': os.path.exists, 'pjoin': os.path.join}[fn](*args)
+
+
+def ext_index(name, k=0):
+    if name == 'cls':
+        return k if k < len(_load['made']) else -1
+    raise NotImplementedError
+
+
+def ext_call_arg(name, k, j):
+    if name == 'cls' and j == 0:
+        return _load['made'][k]
+    raise NotImplementedError
+
+
+def at_loop(n, var):
+    if var == 'spec':
+        return _name()
+    raise NotImplementedError
+
+
+def loop_index(n):
+    # the search-path entry the loop stopped at: the one the chosen file name was built from
+    made = _load['made']
+    for i, d in enumerate(_load['search_path']):
+        if made and made[0] == os.path.join(d, _name()):
+            return i
+    raise NotImplementedError
